@@ -188,14 +188,18 @@ def h_negative_args(ctx, signs):
             ctx.claim("negative radii reach the arc as absolute values", ctx.and_(ctx.eq(grx, rx), ctx.eq(gry, ry)))
 
 
-def h_negative(ctx):
-    """negative radii in path data act as their absolute values"""
+def h_negative(ctx, via="path", signs=(-1, -1)):
+    """negative radii act as their absolute values: in path data and in the endpoint-form constructor"""
     S = ctx.S
     x1, y1, x2, y2 = ctx.reals("x1 y1 x2 y2", -V, V)
     rx, ry = ctx.real("rx", 0.01, 1000), ctx.real("ry", 0.01, 1000)
     ctx.assume(ctx.or_(ctx.xne(x1, x2), ctx.xne(y1, y2)))
-    a = S.Path("M%s,%s A-%s -%s 30 0 1 %s,%s" % (x1, y1, rx, ry, x2, y2))[1]
-    b = S.Path("M%s,%s A%s %s 30 0 1 %s,%s" % (x1, y1, rx, ry, x2, y2))[1]
+    if via == "Arc":
+        a = S.Arc((x1, y1), signs[0] * rx, signs[1] * ry, 30.0, 0, 1, (x2, y2))
+        b = S.Arc((x1, y1), rx, ry, 30.0, 0, 1, (x2, y2))
+    else:
+        a = S.Path("M%s,%s A-%s -%s 30 0 1 %s,%s" % (x1, y1, rx, ry, x2, y2))[1]
+        b = S.Path("M%s,%s A%s %s 30 0 1 %s,%s" % (x1, y1, rx, ry, x2, y2))[1]
     ctx.claim("negative radii = absolute values", ctx.and_(ctx.eq(a.center.x, b.center.x), ctx.eq(a.center.y, b.center.y), ctx.eq(a.prx.x, b.prx.x), ctx.eq(a.pry.y, b.pry.y),
                                                           ctx.eq(a.sweep, b.sweep)))
 
@@ -227,5 +231,8 @@ def harnesses(tier):
     for sg in ((1, 0), (0, 1), (1, 1)):
         hs.append({"name": "negative_radii_args/%d%d" % sg, "fn": "h_negative_args", "params": {"signs": list(sg)}})
     hs.append({"name": "negative_radii", "fn": "h_negative", "claim_timeout_ms": to, "no_dual": True, "branch_timeout_ms": 1000, "budget_s": 90})
+    for sg in ((-1, 1), (1, -1), (-1, -1)):
+        hs.append({"name": "negative_radii_ctor/%+d%+d" % sg, "fn": "h_negative", "params": {"via": "Arc", "signs": list(sg)}, "claim_timeout_ms": to, "no_dual": True,
+                   "branch_timeout_ms": 1000, "budget_s": 90})
     hs.append({"name": "twin/sweep_sign", "fn": "h_twin", "twin": True, "branch_timeout_ms": 1000, "claim_timeout_ms": 10000, "budget_s": 60, "max_paths": 6, "no_dual": True})
     return hs
